@@ -80,6 +80,19 @@ def gen_signature(rng, nchains=None, with_cal=None, anchor=None, rfc=None, time=
     if long_chain:
         counts[rng.randrange(nch)] = rng.choice([60, 61, 62, 63])
     budget = 255
+    if first_corr is not None:
+        # everything above the first link has to fit below level 255
+        room = 255 - first_corr
+        if room < nch:
+            nch = max(1, room)
+            counts = counts[:nch]
+        if room < 1:
+            raise ValueError('level budget exhausted')
+        while sum(counts) > room:
+            j = max(range(len(counts)), key=lambda x: counts[x])
+            counts[j] -= 1
+        if min(counts) < 1:
+            raise ValueError('level budget exhausted')
     chains = []
     doc = rnd_imprint(rng, doc_alg) if doc_data is None else R.H(doc_alg, doc_data)
     if doc_imprint is not None:
@@ -105,8 +118,11 @@ def gen_signature(rng, nchains=None, with_cal=None, anchor=None, rfc=None, time=
         n = counts[i]
         lb = min(budget - level - (sum(counts[i + 1:])), max(n, per))
         links = gen_links(rng, n, max(n, lb))
-        if i == 0 and first_corr is not None:
-            links[0].corr = first_corr
+        if first_corr is not None:
+            for ln in links:
+                ln.corr = None
+            if i == 0:
+                links[0].corr = first_corr
         if rfc and i == 0 and links[0].corr:
             pass
         algo = rng.choice(algs)
